@@ -92,7 +92,7 @@ Qed.
 (* for a plain property the specification's computed value is the cascade *)
 Lemma plain_is_spec d t chain p : plain_prop p = true -> computed_spec d t chain p = plain d t p chain.
 Proof.
-  intros H. destruct (plain_facts p H) as (F1 & F2 & F3 & F4 & F5 & F6).
+  intros H. destruct (plain_facts p H) as (F1 & F2 & F3 & F4 & F5 & F6 & F7).
   unfold computed_spec.
   repeat match goal with
          | |- (if ?c then _ else _) = _ =>
